@@ -314,8 +314,15 @@ var specC12Stream = Register(&Spec[StreamCase]{
 			if h.Size() != int64(len(c.Data)) {
 				return errf("hasher %d (%s): Size() = %d, stream has %d bytes", i, c.Algos[i], h.Size(), len(c.Data))
 			}
-			if got, want := hex.EncodeToString(h.Sum(nil)), trueDigest(c.Algos[i], c.Data); got != want {
+			sum := h.Sum(nil)
+			if got, want := hex.EncodeToString(sum), trueDigest(c.Algos[i], c.Data); got != want {
 				return errf("hasher %d (%s): digest %s, true digest %s (%d bytes)", i, c.Algos[i], got, want, len(c.Data))
+			}
+			// Sum appends to what it is given and hands the digest out for keeps: asking again (into a
+			// prefix of the caller's) neither changes the first answer nor the prefix
+			again := h.Sum([]byte("prefix-"))
+			if hex.EncodeToString(sum) != trueDigest(c.Algos[i], c.Data) || !bytes.HasPrefix(again, []byte("prefix-")) || hex.EncodeToString(again[7:]) != trueDigest(c.Algos[i], c.Data) {
+				return errf("hasher %d (%s): a second Sum(prefix) gives %x and leaves the first answer as %x, true digest %s", i, c.Algos[i], again, sum, trueDigest(c.Algos[i], c.Data))
 			}
 			fh := control.FileHashFromHasher("some/path", *h)
 			if fh.Algorithm != c.Algos[i] || fh.Hash != trueDigest(c.Algos[i], c.Data) || fh.Size != int64(len(c.Data)) || fh.Filename != "some/path" {
